@@ -37,6 +37,7 @@ LEVEL_TEXT = (
     "Annotated hints (read with their extras; empty annotation = `()`) denote the same signature as their string and malformed hints are refused; both alternative constructors fill the four slots of the signature object in the right order; equivalence, interpreted with opaque names on all pairs of "
     "bounded shapes, holds exactly for consistent renamings and never iterates a set. The unbounded round-trip claim rests on the bounded family plus the "
     "token-aligned extraction pattern."
+    " Piecewise validation is judged by a bounded acceptance table instead of automata; names are any word of \\w+ (leading digits, non-ASCII); equivalence covers output-only names."
 )
 LEVEL_NOTE = "Trusted: Python's re; the abstract evaluator. Bounds are stated in the evidence."
 
